@@ -19,6 +19,16 @@ P = {
              "checks to length 64 are recorded from the code, the precondition decided and the round trip judged by the trace spec.",
         tech="TLC model checking of encode/decode step machines + replay of all exported behaviours + trace validation",
         ref="5/C01"),
+    "C02": dict(
+        spec="Filter, Generate, Coding, MC_Pipe, MC_CtorScope, Trace_Pipe",
+        text="The pipeline filter -> vertices -> coding graph -> encode is one TLC machine with EveryWindowValid, OnlyRetained, "
+             "VertexIsWindow and LocalToGlobal as invariants (built-in order-2/3 configurations and arbitrary vertex sets as user "
+             "predicates x t x retained starts x messages x modes; the premise-free twin yields the D8 counterexample); the real "
+             "pipeline is run on every exported input, the real filter is asked about every window of start k-mer + strand and about "
+             "the whole strand, and the record is judged by the trace spec; the constructor clause is judged on every configuration "
+             "TLC classifies; seeded realistic filters of orders 3..5 in Flow B.",
+        tech="TLC model checking of the composed pipeline machine + observation of the real pipeline judged by a TLC trace spec",
+        ref="5/C02"),
     "C03": dict(
         spec="Generate, MC_Generate, Trace_Generate",
         text="Trimming is a round-per-action machine with the declarative largest-closed-subset beside it; TLC checks closedness, the "
@@ -28,6 +38,15 @@ P = {
              "latter_map_to_accessor(threshold)); seeded masks of orders 3..5 with nested sub-masks are judged by the trace spec.",
         tech="TLC exhaustive model checking of the trimming machine + exhaustive replay + trace validation",
         ref="5/C03"),
+    "C04": dict(
+        spec="Generate, Coding, MC_Pipe (incl. liveness cfg), Trace_Pipe",
+        text="On the composed machine TLC checks EncTotal, WalkInv, the step bound L*|V|, LastIsBranching, TightNormal (radix product "
+             "before the last step <= value; <= L nucleotides for t >= 2; <= ceil(L/2) on complete graphs) and TightFast, plus "
+             "termination under weak fairness on order 1; the real encoder runs on every exported input under a tick budget taken "
+             "from the specification (exceeding it is the verdict, not a timeout) and the recorded strand is judged by the trace "
+             "spec with limb arithmetic; seeded generated graphs of orders 3..5 with messages to 1024 bits in Flow B.",
+        tech="TLC model checking with bounded-termination invariants and a fairness cross-check + tick-budgeted execution judged by a TLC trace spec",
+        ref="5/C04"),
     "C05": dict(
         spec="Coding (DocScheme), MC_Coding, MC_Decode, Trace_Coding, Ind_Mix",
         text="The published scheme is stated declaratively (little-endian mixed radix over the out-degrees met, table rank, bit pairs "
@@ -61,6 +80,15 @@ P = {
              "to 64 and their edits are recorded from the code and judged by the trace spec.",
         tech="TLC model checking of VT.tla + exhaustive replay into set_vt/decode + trace validation of long strands",
         ref="5/C07"),
+    "C11": dict(
+        spec="Generate, Filter, MC_Find, Trace_Generate",
+        text="FindVertices and the vertex-induced valid graph are defined in the specification; TLC enumerates order-2 vertex sets as "
+             "arbitrary user predicates and built-in configurations for k = 1..3 (4), checks the defining equivalences and exports "
+             "marked sets and graphs; find_vertices is run with user-defined filters written against the documented "
+             "valid(self, dna_string) interface and with LocalBioFilter, connect_valid_graph with bool and int masks; ValueError "
+             "exactly on empty sets; seeded filters/masks of orders 3..6 judged by the trace spec.",
+        tech="TLC model checking + replay into find_vertices/connect_valid_graph + trace validation",
+        ref="5/C11"),
     "C12": dict(
         spec="Filter, MC_Filter, Trace_Filter",
         text="LocalBioFilter.valid is transcribed clause by clause (alphabet, run, motif and reverse complement, windowed GC with "
